@@ -12,6 +12,7 @@ from __future__ import annotations
 import ast
 
 import z3
+from .values import FA
 
 from .values import *
 from .pytypes import *
@@ -164,9 +165,9 @@ def ensure_tok_axioms(B):
     roots = ["Keyword", "Text", "Comment", "Punctuation", "Operator", "Name"]
     for i, a in enumerate(roots):
         for b in roots[i + 1:]:
-            eng.axioms.append(z3.ForAll([t], z3.Not(z3.And(fs[a](t), fs[b](t))), patterns=[fs[a](t)]))
-            eng.axioms.append(z3.ForAll([t], z3.Not(z3.And(fs[a](t), fs[b](t))), patterns=[fs[b](t)]))
-    eng.axioms.append(z3.ForAll([t], z3.Implies(fs["Whitespace"](t), fs["Text"](t)), patterns=[fs["Whitespace"](t)]))
+            eng.axioms.append(FA([t], z3.Not(z3.And(fs[a](t), fs[b](t))), patterns=[fs[a](t)]))
+            eng.axioms.append(FA([t], z3.Not(z3.And(fs[a](t), fs[b](t))), patterns=[fs[b](t)]))
+    eng.axioms.append(FA([t], z3.Implies(fs["Whitespace"](t), fs["Text"](t)), patterns=[fs["Whitespace"](t)]))
     # each root constant belongs to its own subtree; Text itself is not in Whitespace
     for r in TOK_ROOTS:
         k = c(z3.IntVal(9000 + TOK_ROOTS.index(r)))
@@ -368,7 +369,7 @@ def _h_walk(B, st, args, kwargs, node):
             n = eng.list_len(s, l)
             arr = z3.Select(s.eltmap(z3.StringSort()), l.ref)
             k = z3.Int("wk!")
-            s.assume(z3.ForAll([k], z3.Implies(z3.And(k >= 0, k < n), z3.Length(z3.Select(arr, k)) > 0),
+            s.assume(FA([k], z3.Implies(z3.And(k >= 0, k < n), z3.Length(z3.Select(arr, k)) > 0),
                                patterns=[z3.Select(arr, k)]))
         return VTuple([VStr(rootf(wid, i)), dirs, files])
 
